@@ -245,6 +245,10 @@ def explore_all(modname, queries, report, chunk=400, time_budget=None):
                     progressed = True
                     out = h.get()
                     out['leftover'] = [_unjson_log(p) for p in out['leftover']]
+                    if os.environ.get('VERIF_DEBUG'):
+                        print("[debug] task done: paths=%d fails=%d leftover=%d wall=%.1fs err=%s q=%s" % (
+                            out['paths'], len(out['failures']), len(out['leftover']), out.get('wall', 0),
+                            bool(out['error']), json.dumps(out['q'])[:100]), file=sys.stderr, flush=True)
                     report.absorb(out)
                     if out['error']:
                         continue
@@ -357,10 +361,14 @@ def finish(report, mod, exhaustive=True):
             if tried >= 12:
                 break
             tried += 1
+            t_r = time.time()
             try:
                 verdict, detail = replay.confirm(mod, f)
             except Exception as e:
                 verdict, detail = 'error', "replay raised %r\n%s" % (e, traceback.format_exc())
+            if os.environ.get('VERIF_DEBUG'):
+                print("[debug] replay %s -> %s (%.1fs) %s" % (obl[:80], verdict, time.time() - t_r,
+                                                              str(detail)[:200]), file=sys.stderr, flush=True)
             if verdict == 'confirmed':
                 sig = replay.match_known(known, f, detail)
                 if sig is not None:
